@@ -113,17 +113,25 @@ class ThreadSafeLRUCache(LRUCache[_KT, _VT]):
         except KeyError:
             return default
 
+    # The listing methods iterate over a snapshot taken while holding the lock. A
+    # lazy iterator would be consumed after the lock is released and fail with
+    # "OrderedDict mutated during iteration" if another thread touches the cache.
+
+    def __iter__(self) -> Iterator[_KT]:
+        with self._lock:
+            return iter(list(super().__iter__()))
+
     def keys(self) -> Iterator[_KT]:
         """Return an iterator over this cache's keys."""
         with self._lock:
-            return super().keys()
+            return iter(list(super().keys()))
 
     def values(self) -> Iterator[_VT]:
         """Return an iterator over this cache's values."""
         with self._lock:
-            return super().values()
+            return iter(list(super().values()))
 
     def items(self) -> Iterator[tuple[_KT, _VT]]:
         """Return an iterator over this cache's key/value pairs."""
         with self._lock:
-            return super().items()
+            return iter(list(super().items()))
